@@ -432,6 +432,15 @@ func c09ExecFollow(sc c09Follow) (string, map[string]bool) {
 				hand.hook("BSStart", func() { fire(nxt, "at_reopen_start") })
 			case "reopen_after":
 				hand.hook("ASStart", func() { fire(nxt, "while_reopening") })
+			case "ending":
+				// from another goroutine while the AfterRebalanceEnd callback of the previous rebalance is still running (the
+				// rebalance has lowered its flag but still holds its lock): the call queues behind it
+				hand.hook("ARE", func() {
+					started := make(chan struct{})
+					go func() { close(started); fire(nxt, "while_rebalance_ends") }()
+					<-started
+					time.Sleep(3 * time.Millisecond)
+				})
 			}
 		}
 		// what the library does with a membership event: the membership object and dcp.membershipChangedListener
@@ -491,29 +500,34 @@ func c09ExecFollow(sc c09Follow) (string, map[string]bool) {
 	return "", labels
 }
 
+func c09GenFollow(rt *rapid.T) c09Follow {
+	sc := c09Follow{N: rapid.SampledFrom([]int{4, 8, 16, 64, 128}).Draw(rt, "n"), Dynamic: rapid.IntRange(0, 3).Draw(rt, "dynamic") == 0}
+	for i, k := 0, rapid.IntRange(2, 5).Draw(rt, "steps"); i < k; i++ {
+		maxT := sc.N
+		if maxT > 8 {
+			maxT = 8
+		}
+		s := c09FollowStep{T: rapid.IntRange(1, maxT).Draw(rt, "t")}
+		s.M = rapid.IntRange(1, s.T).Draw(rt, "m")
+		s.When = "idle"
+		if i > 0 {
+			s.When = rapid.SampledFrom([]string{"idle", "closing", "pending", "reopen_before", "reopen_after", "reopen_after", "ending", "ending"}).Draw(rt, "when")
+		}
+		sc.Steps = append(sc.Steps, s)
+	}
+	return sc
+}
+
 func TestC09_StreamFollowsMembership(t *testing.T) {
 	rapid.Check(t, func(rt *rapid.T) {
-		sc := c09Follow{N: rapid.SampledFrom([]int{4, 8, 16, 64, 128}).Draw(rt, "n"), Dynamic: rapid.IntRange(0, 3).Draw(rt, "dynamic") == 0}
-		for i, k := 0, rapid.IntRange(2, 5).Draw(rt, "steps"); i < k; i++ {
-			maxT := sc.N
-			if maxT > 8 {
-				maxT = 8
-			}
-			s := c09FollowStep{T: rapid.IntRange(1, maxT).Draw(rt, "t")}
-			s.M = rapid.IntRange(1, s.T).Draw(rt, "m")
-			s.When = "idle"
-			if i > 0 {
-				s.When = rapid.SampledFrom([]string{"idle", "closing", "pending", "reopen_before", "reopen_after", "reopen_after"}).Draw(rt, "when")
-			}
-			sc.Steps = append(sc.Steps, s)
-		}
+		sc := c09GenFollow(rt)
 		journal("C09", "c09follow", sc)
 		d, labels := c09ExecFollow(sc)
 		journalDone()
 		if d != "" {
 			violation(rt, "C09", "c09follow", sc, "%s", d)
 		}
-		record("C09", sc, labels["event_while_reopening"] || labels["event_while_closing"], append(labelList(labels), "stream_follows_cases")...)
+		record("C09", sc, labels["event_while_reopening"] || labels["event_while_closing"] || labels["event_while_rebalance_ends"], append(labelList(labels), "stream_follows_cases")...)
 	})
 }
 
